@@ -1176,7 +1176,7 @@ impl Scenario for FlexScen {
         let passed: Vec<u64> = props.iter().filter(|p| p.status == Status::Passed).map(|p| p.id).collect();
         let closable: Vec<u64> = props
             .iter()
-            .filter(|p| p.status == Status::Rejected && p.expires.is_expired(&self.block) && self.stored_open(p.id))
+            .filter(|p| p.status == Status::Rejected)
             .map(|p| p.id)
             .collect();
         let any_id = |rng: &mut Rng| 1 + rng.below(n + 1);
